@@ -63,11 +63,17 @@ Record tres := { r_search : option oent; r_fwd : list oent; r_rev : list oent }.
 (** block index entry: base key = key of built entry [i] / explicit; entries; BlockOffset.Len *)
 Inductive lay := L (i n len : N) | LX (base : hx) (n len : N).
 
+(** repeated Seeks on ONE iterator: direction, the targets (indices into the case's
+    target list) in the order they were sought, and per Seek the entry landed on plus
+    up to [seq_limit]-1 entries reached with Next *)
+Record seqobs := { sq_asc : bool; sq_targets : list N; sq_res : list (list oent) }.
+
 Record obs := {
   o_layout : list lay;
   o_bloom : bytes; o_maxver : N; o_count : N;
   o_fwd : olist; o_rev : olist;
-  o_res : list tres }.
+  o_res : list tres;
+  o_seqs : list seqobs }.
 
 (** observations after reopening: [AsBuilt] = identical to those before *)
 Inductive robs := AsBuilt | Reopened (o : obs).
@@ -158,17 +164,30 @@ Definition res_spec_ok (es : list entry) (tg : target) (r : tres) : bool :=
   && ents_ok es (firstn seek_limit (spec_from true es k)) (r_fwd r)
   && ents_ok es (firstn seek_limit (spec_from false es k)) (r_rev r).
 
+Definition seq_limit : nat := 2.
+
+(** setBlock resets the block iterator completely, so every Seek on a used
+    iterator answers like a Seek on a fresh one *)
+Definition seq_ok (es : list entry) (tgs : list target) (answer : bool -> bytes -> list entry) (sq : seqobs) : bool :=
+  forallb2 (fun i r =>
+              match nth_error tgs (N.to_nat i) with
+              | Some tg => ents_ok es (firstn seq_limit (answer (sq_asc sq) (key_of es (tg_spec tg)))) r
+              | None => false
+              end) (sq_targets sq) (sq_res sq).
+
 Definition obs_model_ok (t : table) (es : list entry) (tgs : list target) (o : obs) : bool :=
   layout_eqb (layout_of t) (map (lay_resolve es) (o_layout o))
   && bytes_eqb (t_bloom t) (o_bloom o) && (t_maxver t =? o_maxver o) && (t_count t =? o_count o)
   && olist_ok (iterate true t) (resolve es (o_fwd o))
   && olist_ok (iterate false t) (resolve es (o_rev o))
-  && forallb2 (res_model_ok t es) tgs (o_res o).
+  && forallb2 (res_model_ok t es) tgs (o_res o)
+  && forallb (seq_ok es tgs (fun asc k => take_items asc t seq_limit (tseek asc t k))) (o_seqs o).
 
 Definition obs_spec_ok (es : list entry) (tgs : list target) (o : obs) : bool :=
   list_eqb entry_eqb (spec_iter true es) (resolve es (o_fwd o))
   && list_eqb entry_eqb (spec_iter false es) (resolve es (o_rev o))
-  && forallb2 (res_spec_ok es) tgs (o_res o).
+  && forallb2 (res_spec_ok es) tgs (o_res o)
+  && forallb (seq_ok es tgs (fun asc k => spec_from asc es k)) (o_seqs o).
 
 Definition check (c : case) : verdict :=
   let es := c_entries c in
@@ -194,10 +213,14 @@ Arguments TX base%hx ver%N.
 Arguments LX base%hx n%N len%N.
 Definition T (k : tkey) (mv : N) : target := {| tg_spec := k; tg_maxvs := mv |}.
 Definition R (s : option oent) (f r : list oent) : tres := {| r_search := s; r_fwd := f; r_rev := r |}.
-Definition O (lay : list lay) (bloom : hx) (maxver count : N) (fwd rev : olist) (rs : list tres) : obs :=
+Definition OS (lay : list lay) (bloom : hx) (maxver count : N) (fwd rev : olist) (rs : list tres) (sqs : list seqobs) : obs :=
   {| o_layout := lay; o_bloom := hb bloom; o_maxver := maxver; o_count := count;
-     o_fwd := fwd; o_rev := rev; o_res := rs |}.
+     o_fwd := fwd; o_rev := rev; o_res := rs; o_seqs := sqs |}.
+Arguments OS lay bloom%hx maxver%N count%N fwd rev rs sqs.
+Definition O (lay : list lay) (bloom : hx) (maxver count : N) (fwd rev : olist) (rs : list tres) : obs :=
+  OS lay bloom maxver count fwd rev rs [].
 Arguments O lay bloom%hx maxver%N count%N fwd rev rs.
+Definition SQ (asc : bool) (ts : list N) (rs : list (list oent)) : seqobs := {| sq_asc := asc; sq_targets := ts; sq_res := rs |}.
 Definition Cs (bsz : N) (wb : bool) (bpk k : N) (es : list entry) (tgs : list target) (b : obs) (r : robs) : case :=
   {| c_bsz := bsz; c_with_bloom := wb; c_bpk := bpk; c_k := k; c_entries := es; c_targets := tgs;
      c_built := b; c_reopened := r |}.
